@@ -265,6 +265,24 @@ func (s *Syncer[H]) findTailHeight(ctx context.Context, oldTail, head H) (uint64
 	)
 
 	newTailHeight := estimatedTailHeight
+	for newTailHeight > oldTail.Height() && newTailHeight <= s.store.Height() {
+		// blocks produced faster than the configured block time make the estimate overshoot:
+		// walk down while the header below is still within the window, so that it is not pruned
+		prev, err := s.store.GetByHeight(ctx, newTailHeight-1)
+		if err != nil {
+			return 0, fmt.Errorf(
+				"getting header below estimated new tail(%d) from store: %w",
+				estimatedTailHeight,
+				err,
+			)
+		}
+
+		if expectedTailTime.Compare(prev.Time().UTC()) > 0 {
+			break
+		}
+
+		newTailHeight--
+	}
 	for newTailHeight > oldTail.Height() && newTailHeight < s.store.Height() {
 		// store keeps all the headers up to the current head
 		// iterate over the headers and find the most accurate tail
